@@ -27,7 +27,7 @@ Qed.
 Theorem flac_rate0_rejected a b c d ch bps t m :
   0 <= a < 65536 -> 0 <= b < 65536 -> 0 <= c < 16777216 -> 0 <= d < 16777216 ->
   1 <= ch <= 8 -> 1 <= bps <= 32 -> 0 <= t < 68719476736 -> 0 <= m < 340282366920938463463374607431768211456 ->
-  decode_flac_streaminfo (build_flac_streaminfo (mkFlac a b c d 0 ch bps t m)) = Raise EMutagen.
+  decode_flac_streaminfo (build_flac_streaminfo (mkFlacP a b c d 0 ch bps t m)) = Raise EMutagen.
 Proof.
   intros Ha Hb Hc Hd Hch Hbps Ht Hm.
   unfold build_flac_streaminfo, decode_flac_streaminfo, flac_word.
@@ -65,5 +65,5 @@ Proof.
   repeat (rewrite if_true; [|apply andb_true_iff; split; [apply Z.leb_le; lia | apply Z.ltb_lt; lia]]; cbn [rbind]).
   layout.
   remember (r * 17592186044416 + (ch - 1) * 2199023255552 + (bps - 1) * 68719476736 + t) as w eqn:Ew.
-  f_equal. list_lia.
+  f_equal. do 19 (apply (f_equal2 (@cons Z)); [lia|]). clear -Hm. list_lia_dd.
 Qed.
